@@ -145,6 +145,8 @@ void Variable::removeAllEquivalences()
         }
     }
     pFunc()->mEquivalentVariables.clear();
+    pFunc()->mMappingIdMap.clear();
+    pFunc()->mConnectionIdMap.clear();
 }
 
 VariablePtr Variable::equivalentVariable(size_t index) const
